@@ -2,7 +2,7 @@
 From Coq Require Import ZArith NArith QArith List.
 Import ListNotations.
 From AV Require Import model.Syntax model.Lexer model.Literal spec.LiteralSpec model.Eval model.Run
-  proofs.LiteralProofs proofs.LiteralQuery.
+  proofs.LiteralProofs proofs.LiteralQuery proofs.LexLiteral proofs.LiteralFull.
 Open Scope Z_scope.
 
 (* The library's number parser (`impl FromStr for Rational`) reads every well-formed literal -- optional sign, digits with
@@ -23,6 +23,22 @@ Theorem C07_query_percent : forall debug describe facts (text p : list chr),
   tokens (text ++ p) = [(NUMBER, text); (PERCENTAGE, p)] ->
   query debug describe facts (text ++ p) = ([percent_result text p], []).
 Proof. exact query_percent. Qed.
+
+(* The lexer takes every well-formed literal as one NUMBER token, also in front of any character that cannot continue a number
+   (an operator, a blank, a parenthesis, a percent sign, a letter other than e/E ...). *)
+Theorem C07_literal_first_token : forall (l : literal) (rest : list chr), well_formed l -> stops rest ->
+  next false (chars_of (render l) ++ rest) = ((NUMBER, chars_of (render l)), rest, false).
+Proof. exact literal_first_token. Qed.
+
+(* Full strength: lexer, parser, evaluator and number parser composed. Every well-formed literal typed as a query evaluates to
+   exactly the number it spells, and followed by a percent sign to one hundredth of it. *)
+Theorem C07_literal_query : forall debug describe facts (l : literal), well_formed l ->
+  query debug describe facts (chars_of (render l)) = ([Ok (to_Q (spelled_num l) (spelled_scale l), [])], []).
+Proof. exact literal_query. Qed.
+
+Theorem C07_literal_percent_query : forall debug describe facts (l : literal), well_formed l ->
+  query debug describe facts (chars_of (render l) ++ [37%N]) = ([Ok ((to_Q (spelled_num l) (spelled_scale l) / (100 # 1))%Q, [])], []).
+Proof. exact literal_percent_query. Qed.
 
 (* non-vacuity: "-012.50e-3" is well formed and spells -1250 * 10^-5 *)
 Example C07_example :
